@@ -292,6 +292,7 @@ func Run(r *ev.Run) {
 		defer j.End()
 		s0 := sub.mk()
 		if s0 == nil {
+			table[si] = sub.desc + "\x00not a schema"
 			return
 		}
 		// initial-state results
@@ -449,7 +450,16 @@ func Run(r *ev.Run) {
 	r.Set("transitions", transitions.Load())
 	r.Set("traces_validated_against_impl", transitions.Load())
 	// fresh processes
-	if r.OnlyKey == "" {
+	complete := true
+	for _, row := range table {
+		if row == "" {
+			complete = false // the internal deadline ended the run before every subject was reached
+		}
+	}
+	if !complete {
+		r.NotExhaustive("the result table is incomplete (internal deadline); the fresh-process digest comparison was skipped")
+	}
+	if r.OnlyKey == "" && complete {
 		h := sha256.Sum256([]byte(strings.Join(table, "\n")))
 		mine := fmt.Sprintf("%x", h)
 		n := 3
@@ -663,6 +673,7 @@ func digestMode(r *ev.Run) {
 	par.For(len(subs), nil, func(si int, j par.Journal) {
 		s0 := subs[si].mk()
 		if s0 == nil {
+			table[si] = subs[si].desc + "\x00not a schema"
 			return
 		}
 		m, res, rvd, verdict := "error", "error", "error", ""
